@@ -243,8 +243,17 @@ def run(F, rep):
         raise AnalysisBroken('C12.M2: only %d AST mutations in generator.cpp (5+ confirmed)' % n_m2)
     rep.ok('C12.M1', 'scan', None, '%d state-changing entity calls examined in the reach of %d read-only services' % (n_m, len(READONLY_SERVICES)))
 
+    # ------------------------------------------------------------------ clauses shared with C15 and C07: the reset at the start of a call really empties everything
+    if not getattr(rep, 'nested', False):
+        import core
+        import c15
+        c15.run(F, core.Borrowed(rep, only={'C15.L3'}))
+        import c07
+        c07.run(F, core.Borrowed(rep, only={'C07.W1', 'C07.S1'}))
+
 
 _adds = {}
+
 
 
 def _adds_issue(F, key):
